@@ -292,6 +292,49 @@ type ValOpts struct {
 	RootKnown bool
 	// Simple restricts strings and numbers to small friendly pools.
 	Simple bool
+	// Long > 0: one collection in Long (per value: the first that rolls it) is
+	// a LONG one, 5..40 members of simple shape, beyond MaxElems. Code that is
+	// gated by size (a fast path for short inputs, another algorithm beyond a
+	// threshold, a second hash bucket, a header that grows) is only reached
+	// this way. 0 = off: generators that do not ask draw exactly as before.
+	Long int
+	// inLong is set while the members of a long collection are drawn.
+	inLong bool
+}
+
+// LongSizes are the member counts of long collections: just past the usual
+// bound, around powers of two, and a few dozen.
+var LongSizes = []int{5, 6, 7, 8, 9, 10, 12, 15, 16, 17, 24, 31, 32, 33, 40}
+
+// drawLen draws a member count: 0..MaxElems, or - when o.Long is set - once
+// in o.Long a long count. It reports whether the collection is long.
+func drawLen(t *rapid.T, o ValOpts) (int, bool) {
+	// rapid's integer ranges favour their ends (0 comes up about one time in
+	// ten whatever the range): the middle of the range is drawn with a
+	// probability of about 0.55/Long, which is what is wanted here
+	if o.Long > 0 && !o.inLong && rapid.IntRange(0, o.Long-1).Draw(t, "long") == o.Long/2 {
+		return rapid.SampledFrom(LongSizes).Draw(t, "longn"), true
+	}
+	return rapid.IntRange(0, o.MaxElems).Draw(t, "n"), false
+}
+
+// longMemberOpts are the options for the members of a long collection: nested
+// collections stay tiny so that a long collection stays cheap; simple numbers
+// and strings come from wider pools so that long sets keep their length.
+func longMemberOpts(o ValOpts) ValOpts {
+	o.inLong = true
+	o.MaxElems = 1
+	return o
+}
+
+// longKeys are distinct, NFC-stable map keys for long maps, on top of mapKeys.
+func longKeys(n int) []string {
+	out := make([]string, 0, n)
+	for i := 0; len(out) < n; i++ {
+		out = append(out, "key"+string(rune('a'+i%26))+string(rune('0'+i/26)))
+	}
+	sort.Strings(out)
+	return out
 }
 
 var markNames = []string{"m1", "m2", "m3"}
@@ -383,11 +426,17 @@ func drawKnown(t *rapid.T, ty spec.T, o ValOpts) spec.V {
 	case spec.KBool:
 		return spec.KnownBool(rapid.Bool().Draw(t, "b"))
 	case spec.KNumber:
+		if o.Simple && o.inLong {
+			return spec.KnownNum(SmallInt(-40, 80).Draw(t, "n"))
+		}
 		if o.Simple {
 			return spec.KnownNum(SmallInt(-3, 12).Draw(t, "n"))
 		}
 		return spec.KnownNum(Num(NumOpts{NoInf: o.NoInf}).Draw(t, "n"))
 	case spec.KString:
+		if o.Simple && o.inLong {
+			return spec.KnownStr(SimpleString().Draw(t, "s") + strconv.Itoa(rapid.IntRange(0, 60).Draw(t, "sfx")))
+		}
 		if o.Simple {
 			return spec.KnownStr(SimpleString().Draw(t, "s"))
 		}
@@ -397,7 +446,10 @@ func drawKnown(t *rapid.T, ty spec.T, o ValOpts) spec.V {
 		it := rapid.SampledFrom(dynInst).Draw(t, "dyninst")
 		return drawKnown(t, it, o)
 	case spec.KList, spec.KSet:
-		n := rapid.IntRange(0, o.MaxElems).Draw(t, "n")
+		n, long := drawLen(t, o)
+		if long {
+			o = longMemberOpts(o)
+		}
 		et := instDyn(t, *ty.E)
 		v := spec.V{T: spec.T{K: ty.K, E: &et}, St: spec.Known}
 		for i := 0; i < n; i++ {
@@ -405,10 +457,15 @@ func drawKnown(t *rapid.T, ty spec.T, o ValOpts) spec.V {
 		}
 		return v
 	case spec.KMap:
-		n := rapid.IntRange(0, o.MaxElems).Draw(t, "n")
+		n, long := drawLen(t, o)
 		et := instDyn(t, *ty.E)
 		v := spec.V{T: spec.T{K: ty.K, E: &et}, St: spec.Known}
-		v.Keys = distinctKeys(t, mapKeys, n, "keys")
+		if long {
+			o = longMemberOpts(o)
+			v.Keys = longKeys(n)
+		} else {
+			v.Keys = distinctKeys(t, mapKeys, n, "keys")
+		}
 		for range v.Keys {
 			v.Elems = append(v.Elems, drawValue(t, et, o, false))
 		}
